@@ -6,13 +6,15 @@
 #include <dispatch/private.h>
 
 static const char *const KINDS[] = { "DISPATCH_APPLY_AUTO", "global default queue", "serial queue", "concurrent queue",
-	"concurrent queue targeting a serial queue", "concurrent queue with a racing barrier_async", "concurrent queue narrowed to width 2" };
-enum { K_AUTO, K_GLOBAL, K_SERIAL, K_CONC, K_CONC_SERIAL, K_CONC_BARRIER, K_NARROW, NKINDS };
+	"concurrent queue targeting a serial queue", "concurrent queue with a racing barrier_async", "concurrent queue narrowed to width 2",
+	"concurrent queue narrowed to width 2, iterations block for 1 virtual ms (maximal overlap without preemption)" };
+enum { K_AUTO, K_GLOBAL, K_SERIAL, K_CONC, K_CONC_SERIAL, K_CONC_BARRIER, K_NARROW, NKINDS, K_NARROW_SLOW = NKINDS };
 static const int NS[] = { 0, 1, 2, 3, 5 };
 #define NN 5
 #define NPLAIN (NKINDS * NN)
 static const int NESTED_KINDS[] = { K_AUTO, K_GLOBAL, K_SERIAL, K_CONC };
 #define NNESTED 4
+#define NSLOW 3   // n = 2, 3, 5 on the slow narrow queue
 #define BARRIER_ITEM 900
 
 static dispatch_queue_t g_q, g_bottom;
@@ -28,7 +30,7 @@ static void outer_fn(void *ctx, size_t i)
 	(void)ctx;
 	int id = 100 * ((int)i + 1);
 	vx_ev(EV_START, id, (int64_t)i);
-	vx_point();
+	if (g_kind == K_NARROW_SLOW) vx_sleep_ns(1 * MS); else vx_point();
 	if (g_nested) {
 		vx_ev(EV_CALL, id, 0);
 		dispatch_apply_f(2, (g_kind == K_AUTO || g_kind == K_SERIAL) ? DISPATCH_APPLY_AUTO : g_q, (void *)(intptr_t)id, inner_fn);
@@ -41,11 +43,12 @@ static void racer(void *arg) { (void)arg; vx_ev(EV_CALL, BARRIER_ITEM, 0); dispa
 static void warm_fn(void *c) { *(int *)c = 1; }
 static void warm(dispatch_queue_t q) { int d = 0; dispatch_async_f(q, &d, warm_fn); int *a[2] = { &d, (int *)(intptr_t)1 }; vx_wait_until(pred_int_ge, a); }
 
-static int nvariants(void) { return NPLAIN + NNESTED; }
+static int nvariants(void) { return NPLAIN + NNESTED + NSLOW; }
 static void decode(int v, int *kind, int *n, int *nested)
 {
 	if (v < NPLAIN) { *kind = v / NN; *n = NS[v % NN]; *nested = 0; }
-	else { *kind = NESTED_KINDS[v - NPLAIN]; *n = 2; *nested = 1; }
+	else if (v < NPLAIN + NNESTED) { *kind = NESTED_KINDS[v - NPLAIN]; *n = 2; *nested = 1; }
+	else { *kind = K_NARROW_SLOW; *n = NS[2 + v - NPLAIN - NNESTED]; *nested = 0; }
 }
 static void describe(int v, char *b, size_t len)
 {
@@ -66,7 +69,7 @@ static void run(int v)
 	case K_CONC_SERIAL:
 		g_bottom = dispatch_queue_create("vx.bottom", NULL);
 		g_q = dispatch_queue_create_with_target("vx.apply", DISPATCH_QUEUE_CONCURRENT, g_bottom); break;
-	case K_NARROW: g_q = dispatch_queue_create("vx.apply", DISPATCH_QUEUE_CONCURRENT); dispatch_queue_set_width(g_q, 2); break;
+	case K_NARROW: case K_NARROW_SLOW: g_q = dispatch_queue_create("vx.apply", DISPATCH_QUEUE_CONCURRENT); dispatch_queue_set_width(g_q, 2); break;
 	}
 	warm(g_q);
 	warm(dispatch_get_global_queue(0, 0));
@@ -117,7 +120,7 @@ static int check(int v, const vx_log *l, char *msg, size_t len)
 			}
 		}
 	}
-	if (kind == K_NARROW) {
+	if (kind == K_NARROW || kind == K_NARROW_SLOW) {
 		// iterations are non-barrier items of a queue whose width is 2: at most 2 may be in flight
 		int open_n = 0;
 		for (uint32_t i = 0; i < l->n; i++) {
